@@ -352,6 +352,21 @@ Theorem C12_bare_table_prefix_refuted : exists t raw t' k,
 Proof. exact bare_table_prefix_refuted. Qed.
 Print Assumptions C12_bare_table_prefix_refuted.
 
+(* the meta record that decides about an element key (compaction filter, collHeaderMeta): encodeMetaKey(dt, name)
+   is the meta record of the SAME (type, table, key); same-named collections of different types have different
+   meta records, so a decision (or a cache) keyed by the name alone mixes them up *)
+Theorem C12_meta_record_of_element : forall dt t rk, is_elem_type dt = true ->
+  encode_meta_key dt (pack_redis_key t rk) = Ok (encode_ekey (KMeta (meta_type_of dt) t rk)) /\
+  is_meta_type (meta_type_of dt) = true.
+Proof. exact meta_key_of_element_type. Qed.
+Print Assumptions C12_meta_record_of_element.
+
+Theorem C12_meta_records_of_types_differ : forall dt dt' raw k k', is_elem_type dt = true -> is_elem_type dt' = true ->
+  meta_type_of dt <> meta_type_of dt' ->
+  encode_meta_key dt raw = Ok k -> encode_meta_key dt' raw = Ok k' -> k <> k'.
+Proof. exact meta_keys_of_types_differ. Qed.
+Print Assumptions C12_meta_records_of_types_differ.
+
 (* the u16 guard follows from common.CheckKey: raw and versioned collection keys fit the length field *)
 Theorem C12_verkey_fits_u16 : forall ver rk, N.of_nat (length rk) <= max_key_size -> len16 (encode_ver_key ver rk).
 Proof. exact verkey_len16. Qed.
